@@ -85,7 +85,7 @@ def run(ctx, specdir, module, cfg=None, workers="auto", timeout=600, extra_files
         java.append("-Dtlc2.tool.queue.IStateQueue=StateDeque")
     for k, v in (jvm_props or {}).items():
         java.append("-D%s=%s" % (k, v))
-    cmd = java + ["-cp", JAR + ":" + CM, "tlc2.TLC", "-metadir", meta, "-workers", str(workers)]
+    cmd = java + ["-cp", JAR + ":" + CM, "tlc2.TLC", "-noGenerateSpecTE", "-metadir", meta, "-workers", str(workers)]
     if cfg:
         cmd += ["-config", cfg]
     if simulate:
